@@ -1,3 +1,31 @@
 """vcheck configuration of work group G: PROPS = {"Cxx": {"families": [fam("name", quick_n, thorough_n)], "defects": ["Dn"]}}"""
 
-PROPS = {}
+PROPS = {
+    "C03": {
+        "families": [
+            # exhaustive text equality: all patterns of <= 2 printable ASCII characters and all token strings of
+            # <= n tokens (n = the number given: 3 quick, 4 thorough) over a 22-symbol alphabet
+            fam("c03.p2rx", 3, 4, seeds=1),
+            # sampled text equality beyond the bound (longer patterns, realistic patterns, arbitrary bytes)
+            fam("c03.p2r", 4000, 60000),
+            # compiled matcher (real NewNetworkRule + preparePattern + regexp) vs model (parseRE + search) vs
+            # spec (maskAccepts) on subjects derived from the pattern
+            fam("c03.acc", 6000, 120000),
+        ],
+        "defects": ["D2"],
+        "rule": "c03.p2rx: exhaustive -- every pattern of <= 2 printable ASCII characters and every token string of <= 3 (quick) / "
+                "4 (thorough) tokens over {. + ? $ { } ( ) [ ] / \\ | * ^ a Z 0 - : % _}: Go patternToRegexp text == model text == closed "
+                "form; c03.p2r: sampled longer / realistic / arbitrary-byte patterns; c03.acc: rule texts "
+                "`<pattern>$domain=example.org[,match-case]` through the real NewNetworkRule, preparePattern (VerifPrepared) and "
+                "regexp.MatchString against parseRE+search (model, which also re-checks parsed AST == maskAst per line) and maskAccepts "
+                "(spec) on subjects derived from the pattern (wildcards filled, separators / non-separators / end, case flips, "
+                "dropped / doubled characters, scheme and subdomain variants); non-trivial = the answer is not F / the text is not "
+                "empty; distinct by hash of the op input",
+        "assumptions": [
+            "patterns are ASCII (bytes < 128) and not /regex/ patterns; subjects contain no line feed (property: printable ASCII)",
+            "Go regexp/syntax + regexp (RE2) are modelled by UF.Re (parseRE, search), validated differentially (families re, c03.acc)",
+            "the documented language includes NewNetworkRule's normalisation `<p>/*` == `<p>^` (property text: the trailing '/*' form)",
+            "separator class = complement of [ a-zA-Z0-9.%_-] (blank is not a separator), DESIGN.md section 6",
+        ],
+    },
+}
